@@ -175,22 +175,24 @@ theorem runTpl_revokeable (env : BEnv) (a : Bool) (rev delayed : Key) (delay : I
     opI, Op.OP_IF, Op.OP_ELSE, Op.OP_CSV, Op.OP_DROP, Op.OP_ENDIF, Op.OP_CHECKSIG, expectNumber_numInstr delay h0 h1]
 
 section Classify
-variable (env : BEnv) (keyOk : Bytes → Bool)
+variable (env : BEnv) (parseKey : Bytes → Option Key)
 
 /-- **The model's `classify` on a P2WSH output that commits to a canonical script is the code's pipeline**: the
     generated templates in the generated order (`parseWsh`), then the `handle_*_output` checks with the generated
-    constants.  Hypotheses: `keyOk` agrees with `Key.ok` on the environment's key encodings, which are injective. -/
-theorem classify_eq_parse (hk : ∀ k, keyOk (env.keyBytes k) = k.ok)
-    (hinj : ∀ a, a < env.nKeys → ∀ b, b < env.nKeys → env.keyBytes a = env.keyBytes b → a = b)
+    constants.  Hypothesis: on the keys the environment knows, `parseKey` (`PublicKey::from_slice`) inverts the
+    encoding for curve points and fails for id 0 ("33 bytes that are not a point"). -/
+theorem classify_eq_parse (hk : ∀ a, a < env.nKeys → parseKey (env.keyBytes a) = if Key.ok a then some a else none)
     (s : Setup) (k : Keys) (o : TxOut Nat) (sc : Script) (hn : numsOk sc) (hkn : keysKnown env k sc)
     (hw : o.spk = .p2wsh (wshB env sc)) :
     classify (wshB env) s k o (some sc) =
       (parseWsh s.ctype.isAnchors (scriptInstrs env sc)).bind
-        (handleParsed keyOk (env.keyBytes k.bFunding) (env.keyBytes k.cFunding) o.value) := by
+        (handleParsed parseKey k.bFunding k.cFunding o.value) := by
   rw [parseWsh_canon env _ sc hn]
   cases sc with
   | toLocal rev delay delayed =>
-    simp [classify, hw, expectedParse, handleParsed, hk, MAX_DELAY, Gen.Bolt3.maxDelay]
+    obtain ⟨b1, b2⟩ := hkn
+    cases h1 : rev.ok <;> cases h2 : delayed.ok <;>
+    simp [classify, hw, expectedParse, handleParsed, hk _ b1, hk _ b2, h1, h2, MAX_DELAY, Gen.Bolt3.maxDelay]
   | htlcOffered csv rev k1 k2 hash hashLen =>
     by_cases hc : csv = s.ctype.isAnchors <;>
     simp [classify, hw, expectedParse, handleParsed, hc, hashPush_length, Gen.Bolt3.paymentHashHashLen]
@@ -200,15 +202,13 @@ theorem classify_eq_parse (hk : ∀ k, keyOk (env.keyBytes k) = k.ok)
     by_cases hc : csv = s.ctype.isAnchors <;>
     simp [classify, hw, expectedParse, handleParsed, hc, hashPush_length, Gen.Bolt3.paymentHashHashLen, h2]
   | anchor key =>
-    obtain ⟨b1, b2, b3⟩ := hkn
-    have eb : (env.keyBytes key = env.keyBytes k.bFunding) = (key = k.bFunding) :=
-      propext ⟨hinj _ b1 _ b2, fun e => by rw [e]⟩
-    have ec : (env.keyBytes key = env.keyBytes k.cFunding) = (key = k.cFunding) :=
-      propext ⟨hinj _ b1 _ b3, fun e => by rw [e]⟩
-    by_cases hv : o.value = 330 <;>
-    simp [classify, hw, expectedParse, handleParsed, hk, ANCHOR_SAT, Gen.Bolt3.anchorSat, eb, ec, hv]
+    obtain ⟨b1, _, _⟩ := hkn
+    cases h1 : key.ok <;> by_cases hv : o.value = 330 <;>
+    simp [classify, hw, expectedParse, handleParsed, hk _ b1, h1, ANCHOR_SAT, Gen.Bolt3.anchorSat, hv]
   | toRemoteDelayed key =>
-    cases hA : s.ctype.isAnchors <;> simp [classify, hw, expectedParse, handleParsed, hk, hA]
+    have b1 : key < env.nKeys := hkn
+    cases hA : s.ctype.isAnchors <;> cases h1 : key.ok <;>
+    simp [classify, hw, expectedParse, handleParsed, hk _ b1, h1, hA]
   | unknown n =>
     simp [classify, hw, expectedParse]
 
